@@ -28,6 +28,9 @@ EXPLANATION = (
     "builds agree for a closed-shell density (dm_up = dm_dn = dm/2). "
     "PURE-2: every eigendecomposition reachable from optimize is linalg_utils._eigh. GUARD-1: the "
     "degeneracy threshold is a small data-independent constant. "
+    "SIB-2: the closed-shell starting density of rhf.optimize equals the sum of the two spin blocks "
+    "uhf.optimize starts from when both sectors hold the same orbitals (occupation 2). KEYS-1: optimize "
+    "rewrites no wave_data key the propagation builders read. "
 )
 NOT_DECIDED = "SCF convergence, the fixed-point property, agreement with an independent solver, non-degenerate derivative values."
 TECHNIQUE = "static analysis: reaching-definition guard-chain check, def-use whitelist from eigenvectors to output, symmetry / sibling value numbering"
